@@ -21,9 +21,23 @@ exprs += crlf
 # character after it lands on every alignment around the 65536th / 131072nd byte
 biginputs = ["{\"k\":\"\ue000\u00e9 tail\"}", "{\"k\":\"\ue000\U0001F600\u20ac\"}"]
 pads = list(range(65524, 65534)) + list(range(131060, 131070)) + [10, 4090, 8190]
+# texts that end (or begin) with characters Unicode calls white space but neither JMESPath nor JSON does (and with the blanks both do
+# accept), through every source: a file's content is the text, nothing is trimmed away
+tails = ["\u00a0", "\x0c\n", "\n\u2028", "\x0b\n", "\n\u3000\n", "\u0085", "\u2003", " \t\r\n", "\ufeff", "\u200b", "\n\n\n", "\u2029", "\x1f"]
+tailexprs = ["a" + t for t in tails] + [t + "a" for t in tails[:7]]
+tailinputs = ['{"a":1}' + t for t in tails] + [t + '"x"' for t in tails[:7]] + ["[1]\x0c\n", '"x"\n\u2028']
+# results nested deeper than any document the JSON reader accepts (127 levels): an expression adds levels, the printer must follow
+deepexprs = ["[" * 140 + "@" + "]" * 140, "[[@]]", "[@]", "{a: " * 130 + "@" + "}" * 130, "[[@, @]]", "[" * 129 + "`1`" + "]" * 129, "@"]
+deepinputs = ["[" * 127 + "1" + "]" * 127, "1", "[" * 126 + '{"a":[1,"s"]}' + "]" * 126]
+base_e, base_i = len(exprs), len(inputs)
+exprs += tailexprs + deepexprs
+inputs += tailinputs + deepinputs
 out = os.path.join(VERIF, "spec", "gen", "cli_pools.ndjson")
 with open(out, "w") as f:
     f.write(json.dumps({"exprs": [cps(e) for e in exprs], "inputs": [cps(i) for i in inputs],
-                        "biginputs": [cps(i) for i in biginputs], "pads": pads, "bigexprs": [len(exprs) - len(crlf) - 1, len(exprs) - len(crlf)],
-                        "crlfexprs": list(range(len(exprs) - len(crlf) + 1, len(exprs) + 1))}) + "\n")
+                        "biginputs": [cps(i) for i in biginputs], "pads": pads, "bigexprs": [base_e - len(crlf) - 1, base_e - len(crlf)],
+                        "crlfexprs": list(range(base_e - len(crlf) + 1, base_e + 1)),
+                        "tailexprs": list(range(base_e + 1, base_e + len(tailexprs) + 1)), "deepexprs": list(range(base_e + len(tailexprs) + 1, len(exprs) + 1)),
+                        "tailinputs": list(range(base_i + 1, base_i + len(tailinputs) + 1)), "deepinputs": list(range(base_i + len(tailinputs) + 1, len(inputs) + 1)),
+                        "nexprs": base_e, "ninputs": base_i}) + "\n")
 print("wrote", out, len(exprs), len(inputs))
